@@ -42,6 +42,8 @@ def run_random(spec, out, alpha, nontrivial, shutdown=False):
 
     # cross-cutting operations join every alphabet with a small weight
     alpha = dict(COMMON, **alpha)
+    for k_ in spec.get('exclude', ()):
+        alpha.pop(k_, None)
     ops = W.op_strategy(alphabet(alpha))
     cfgs = spec['cfgs']
 
@@ -63,6 +65,8 @@ def run_random(spec, out, alpha, nontrivial, shutdown=False):
         if sd % 5 == 0 and 'log' not in cfg:
             cfg = dict(cfg, log=True)
         hist = dict(cfg=cfg, ops=oplist)
+        if spec.get('pyopt'):
+            hist['pyopt'] = True
         if shutdown:
             hist['shutdown'] = sd
         w = W.run_and_collect(hist, out)
